@@ -29,6 +29,7 @@ Theorem C02_one_free_rename_is_exact_partial : forall c f t s cwd cwd1 np sp sn 
   chdir s (pf_dir f) = Some cwd1 ->
   generate MName f (RText t) = inl np -> ppath_eqb np (pf_rel f) = false ->
   contained fixed s f np = Some true -> parents_contained s f np = Some true ->
+  source_contained s f = Some true ->
   resolve s cwd1 (to_upath (pf_rel f)) false = WFound sp sn -> sp <> [] ->
   resolve s cwd1 (to_upath np) false = WMissing dpar dname ->
   name_eqb dname dotdot = false ->
